@@ -53,6 +53,9 @@ def element_at_or_default_(
                     index_ -= 1
                 else:
                     found = True
+                    # the element is taken: an element that arrives while it is
+                    # being delivered (re-entrant on_next) is not another match
+                    index_ = -1
 
             if found:
                 observer.on_next(x)
